@@ -10,7 +10,9 @@ document plan (JSON-able):
    "cut": int or None (TORN: content cut at that unit), "raw_hex": hex string (verbatim bytes instead of text/enc)}
 """
 import email.message
+import http.client
 import io
+import re
 import urllib.error
 import urllib.request
 
@@ -82,6 +84,10 @@ class SimNet:
 
     def urlopen(self, request, *a, **k):
         url = request.full_url if isinstance(request, urllib.request.Request) else request
+        if re.search(r"[\x00-\x20\x7f]", url):
+            # what the stdlib HTTP client does with such a URL before anything is sent
+            self._count("INVALID_URL")
+            raise http.client.InvalidURL(f"URL can't contain control characters. {url!r}")
         d = self.docs.get(url)
         fault = (d or {}).get("fault") if d is not None else "NOT_FOUND"
         self.log.append((url, fault))
